@@ -262,7 +262,7 @@ func liveCase(rn *runner, lw *liveWorld, rng *rand.Rand, slots []*regionSlot, ne
 	}
 	sl := slots[i]
 	q := randomRequest(rng, w, sl.origin, sl.joint, nextID)
-	k := &kase{World: w, Origin: sl.layout, Req: q, Family: family, History: hist, AmbiguousWorld: family == "concurrent"}
+	k := &kase{World: w, Origin: sl.layout, Req: q, Family: family, History: hist, AmbiguousWorld: family == famWorldChange}
 	var between func()
 	if splitOK && (q.API == apiBuilder || q.API == apiBuilderRoles) && rng.Intn(3) == 0 {
 		k.AmbiguousWorld = true
@@ -277,7 +277,7 @@ func liveCase(rn *runner, lw *liveWorld, rng *rand.Rand, slots []*regionSlot, ne
 	n0 := lw.eventCount()
 	rn.execBetween(lw.cl, k, sl.origin, sl.info, between)
 	rn.st.count("live_cases", 1)
-	if family == "concurrent" && lw.eventCount() != n0 {
+	if family == famWorldChange && lw.eventCount() != n0 {
 		rn.st.count("concurrent_cases_overlapped_by_a_world_change", 1)
 	}
 }
@@ -357,7 +357,7 @@ func concurrentPhase(r *ev.Run, merge func(*stats)) {
 				slots := make([]*regionSlot, 3)
 				<-start
 				for c := 0; c < perBuilder; c++ {
-					liveCase(rn, lw, lr, slots, &nextID, "concurrent", false)
+					liveCase(rn, lw, lr, slots, &nextID, famWorldChange, false)
 					if c%16 == 0 {
 						runtime.Gosched()
 					}
@@ -390,4 +390,180 @@ func concurrentPhase(r *ev.Run, merge func(*stats)) {
 	s := newStats()
 	s.count("concurrent_rounds", int64(rounds))
 	merge(s)
+}
+
+// ---- a store changes state at a chosen point INSIDE one Build ------------------------------------------------
+//
+// The builder asks the cluster for store records many times during one Build (every allowLeader call).
+// A store heartbeat / state change processed by the server between two of those calls is an ordinary
+// interleaving (builds hold no cluster lock). flipCluster makes it deterministic: the at-th GetStore
+// call of the build first applies the change. The grid is complete: every origin x request (S stores)
+// x flipped store x direction x every call index of that build.
+
+type flipCluster struct {
+	*cluster
+	calls, at int
+	fire      func()
+}
+
+// GetStore shadows cluster.GetStore.
+func (f *flipCluster) GetStore(id uint64) *core.StoreInfo {
+	f.calls++
+	if f.calls == f.at && f.fire != nil {
+		f.fire()
+	}
+	return f.cluster.GetStore(id)
+}
+
+const famWorldChange = "world-change-during-build"
+
+type flipItem struct {
+	mode   string
+	layout int
+	leader int
+}
+
+func flipPhase(r *ev.Run, workers int, merge func(*stats)) {
+	// complete for 3 stores (both directions); thorough adds 4 stores for the direction "becomes up"
+	flipGrid(r, workers, merge, 3, []bool{true, false})
+	if r.Thorough() {
+		flipGrid(r, workers, merge, 4, []bool{true})
+	}
+}
+
+func flipGrid(r *ev.Run, workers int, merge func(*stats), S int, dirs []bool) {
+	var items []flipItem
+	for _, m := range allModes {
+		for code := 0; code < pow(3, S); code++ {
+			for i, x := range digitsOf(code, 3, S) {
+				if x == 1 {
+					items = append(items, flipItem{mode: m, layout: code, leader: i})
+				}
+			}
+		}
+	}
+	ch := make(chan flipItem, 64)
+	var wg sync.WaitGroup
+	var fatal sync.Once
+	for wk := 0; wk < workers; wk++ {
+		wg.Add(1)
+		go func() {
+			defer wg.Done()
+			rn := &runner{st: newStats()}
+			clusters := map[string]*cluster{}
+			for it := range ch {
+				cl := clusters[it.mode]
+				if cl == nil {
+					w := (&xcfg{S: S, Mode: it.mode}).world()
+					var err error
+					if cl, err = newCluster(w); err != nil {
+						fatal.Do(func() { r.Inconclusive("flip phase: %v", err) })
+						continue
+					}
+					clusters[it.mode] = cl
+				}
+				rn.flipItem(cl, S, it, dirs)
+			}
+			for _, cl := range clusters {
+				cl.close()
+			}
+			merge(rn.st)
+		}()
+	}
+	n := 0
+	for i, it := range items {
+		if i%r.Shards == r.Shard {
+			ch <- it
+			n++
+		}
+	}
+	close(ch)
+	wg.Wait()
+	r.Set(fmt.Sprintf("flip_phase_S%d_origin_items_this_shard", S), n)
+}
+
+// flipItem: one origin, every request, every flipped store, both directions, every call index.
+func (rn *runner) flipItem(cl *cluster, S int, it flipItem, dirs []bool) {
+	d := digitsOf(it.layout, 3, S)
+	var specs []sim.PeerSpec
+	for i, x := range d {
+		if x != 0 {
+			specs = append(specs, sim.PeerSpec{Store: uint64(i + 1), Role: plainRoles[x], Leader: i == it.leader})
+		}
+	}
+	layout := layoutString(specs)
+	origin := originRegion(specs)
+	info := origin.Info()
+	var reqs []request
+	for code := 0; code < pow(3, S); code++ {
+		t := digitsOf(code, 3, S)
+		var target []peerReq
+		voters := 0
+		for i, x := range t {
+			switch x {
+			case 1:
+				target = append(target, peerReq{Store: uint64(i + 1), Role: "v"})
+				voters++
+			case 2:
+				target = append(target, peerReq{Store: uint64(i + 1), Role: "l"})
+			}
+		}
+		if voters == 0 {
+			continue
+		}
+		reqs = append(reqs, request{API: apiBuilder, Target: target})
+		for i, x := range t {
+			if x == 1 {
+				reqs = append(reqs, request{API: apiBuilder, Target: target, Leader: uint64(i + 1)})
+			}
+		}
+	}
+	fc := &flipCluster{cluster: cl}
+	for _, others := range []string{stUp, stDown} {
+		// the stores that do not flip are all up, or all down (then only the flipping store and the
+		// current leader's store can be chosen as leader)
+		for o := 1; o <= S; o++ {
+			si, _ := storeInfo(storeDesc{ID: uint64(o), State: others})
+			cl.PutStore(si)
+		}
+		for f := 1; f <= S; f++ {
+			for _, toUp := range dirs {
+				first, then := stDown, stUp
+				if !toUp {
+					first, then = stUp, stDown
+				}
+				w := (&xcfg{S: S, Mode: it.mode}).world()
+				for o := range w.Stores {
+					w.Stores[o].State = others
+				}
+				w.Stores[f-1].State = first
+				siFirst, _ := storeInfo(storeDesc{ID: uint64(f), State: first})
+				siThen, _ := storeInfo(storeDesc{ID: uint64(f), State: then})
+				hist := []string{fmt.Sprintf("store %d is %s when the build starts and becomes %s at the k-th store lookup of the build (k = flip_at)", f, first, then)}
+				for qi := range reqs {
+					// dry run: how many store lookups does this build make?
+					cl.PutStore(siFirst)
+					fc.calls, fc.at, fc.fire = 0, 0, nil
+					_, _, _ = invoke(fc, info, &reqs[qi], nil)
+					n := fc.calls
+					rn.st.count("flip_cases", 1)
+					for k := 1; k <= n; k++ {
+						cl.PutStore(siFirst)
+						fc.calls, fc.at = 0, k
+						fc.fire = func() { cl.PutStore(siThen) }
+						kk := &kase{World: w, Origin: layout, Req: reqs[qi], Family: famWorldChange, History: hist, AmbiguousWorld: true,
+							FlipStore: uint64(f), FlipTo: then, FlipAt: k}
+						rn.exec(fc, kk, origin, info)
+						rn.st.count("flip_builds", 1)
+					}
+				}
+			}
+			si, _ := storeInfo(storeDesc{ID: uint64(f), State: others})
+			cl.PutStore(si)
+		}
+	}
+	for o := 1; o <= S; o++ {
+		si, _ := storeInfo(storeDesc{ID: uint64(o), State: stUp})
+		cl.PutStore(si)
+	}
 }
